@@ -306,6 +306,13 @@ func visitInstr(fr *frame, instr ssa.Instruction) continuation {
 		} else {
 			addr = fr.env[instr].(*value)
 		}
+		if at, ok := mustDeref(instr.Type()).Underlying().(*types.Array); ok && at.Len() > i.pm.cfg.MaxAlloc {
+			if k, ok := scalarKind(at.Elem()); ok {
+				// huge scalar arrays (make([]byte, 1<<20) is lowered to new([N]byte)[:]) stay sparse
+				*addr = &bigArray{obj: &bobj{id: i.newID(), cells: map[int]value{}, elemK: k}, n: int(at.Len()), elem: at.Elem()}
+				break
+			}
+		}
 		*addr = zero(mustDeref(instr.Type()))
 
 	case *ssa.MakeSlice:
